@@ -314,7 +314,7 @@ class SpendContextShape:
         return M.SpendContext(locktime=locktime, sequence=sequence, version=version)
 
 
-@contract("btclib.descriptors.miniscript.SpendContext._after", types=dict(self="obj:SpendContext", value="u32"), props="C15")
+@contract("btclib.descriptors.miniscript.SpendContext._after", types=dict(self="obj:SpendContext", value="u32"), props="C15 C10")
 class AfterRule:
     """BIP65 as the interpreter enforces it: same kind of lock time on both sides of 500000000,
     the transaction's at least the fragment's, and a sequence that does not disable nLockTime"""
@@ -324,7 +324,7 @@ class AfterRule:
         return result == (same_kind and value <= self.locktime and self.sequence != 0xFFFFFFFF)
 
 
-@contract("btclib.descriptors.miniscript.SpendContext._older", types=dict(self="obj:SpendContext", value="u32"), props="C15")
+@contract("btclib.descriptors.miniscript.SpendContext._older", types=dict(self="obj:SpendContext", value="u32"), props="C15 C10")
 class OlderRule:
     """BIP112 as the interpreter enforces it: version >= 2, disable bit (31) clear, same unit
     (bit 22), and the low 16 bits of the sequence at least those of the fragment"""
